@@ -14,17 +14,19 @@ from vf.tlc import Raw
 
 META = {
     "engine": "wire",
-    "text": "TLC enumerates ArgContract!Cases = every signature of <= MaxParams parameters over {int64, int32 via "
-            "Annotated ArrowType, float64, str, Optional[int], Enum} x {default, no default} (trailing defaults) x every "
-            "perturbation of the request a correct client would send (rename, reorder, add front/back, drop, retype "
-            "same-family / other-family, nullability flip, null in each position as-is / with honest schema, unknown enum "
-            "member) and checks the table invariants (only the identity and a null in an Optional parameter are "
-            "admitted; defaults and widenings never excuse a mismatch).  A real service with one unary and one stream "
-            "method per signature is generated; every case is built directly with pyarrow and sent on all four dispatch "
-            "paths (raw bytes on a live RpcServer.serve connection for socket unary / stream init; in-process HTTP "
-            "client for POST /m and POST /m/init) under every method behaviour (returns, raises TypeError, raises "
-            "pa.ArrowInvalid); the implementation's invocation log with the exact argument values, the HTTP status and "
-            "the in-band error are recorded and judged by TLC with ArgContract!Conforms.",
+    "text": "TLC enumerates ArgContract!Cases = every signature of <= MaxParams parameters over the constant Types (the six "
+            "basic kinds int64, int32 via Annotated ArrowType, float64, str, Optional[int], Enum at the larger arity; with "
+            "bool, bytes, float32, list[int], Optional[str], Optional[Enum] and a dataclass at the smaller) x {default, no "
+            "default} x every perturbation of the request a correct client would send (rename, reorder, add front/back, "
+            "duplicate a declared name, drop one / all, retype same-family / other-family incl. inner nullability, "
+            "nullability flip, null as-is / honest, undecodable value) and checks the table invariants (only the identity "
+            "and a null in an Optional parameter are admitted).  A real service with a unary, a ctx-taking unary and a "
+            "stream method per signature is generated; every case is built directly with pyarrow and sent on every "
+            "dispatch path (raw bytes on a live RpcServer.serve connection for socket unary / stream init / ctx methods / "
+            "delivery through a shared-memory pointer; in-process HTTP client for POST /m and POST /m/init) under every "
+            "method behaviour (returns; raises TypeError, ArrowInvalid, ValueError, KeyError, VersionError); the "
+            "implementation's invocation log with the exact argument values, the HTTP status and the in-band error are "
+            "recorded and judged by TLC with ArgContract!Conforms.",
     "note": "Trusted: the abstract schema equality of the spec as the reading of 'match exactly'; concrete retype pools "
             "(same-family vs other-family Arrow types); HTTP legs use the in-process falcon client; a method-raised "
             "exception must not be a 4xx and must carry the marker header (the exact success-side status is C15's).",
